@@ -19,6 +19,9 @@ CHECKS = {
              text="After every superseding call the contexts of the instances that were inside the function are read and must be cancelled; at every exact quiescent point at most one live instance exists and it carries the stored context tag and state (QuietBad of RoutineP); the same conditions are invariants of Routine.tla under TLC.", ref="§3 C05"),
  "C14": dict(engine="routine", technique="same executions plus sequential settled histories (driver option seq) with virtual-time backoff; RoutineP restart/retry/WaitExited/exit-callback conditions evaluated by TLC on recorded traces and on Routine.tla",
              text="RoutineP tracks the recorded exit status (exit callbacks), rerun credits (RestartRoutine, new routine/state, SetContext(restart), elapsed backoff), WaitExited result windows and exit-callback reports; TLC evaluates them on traces of the real containers (controlled interleavings and settled sequential histories with virtual time) and on the X spec.", ref="§3 C14"),
+ "C13": dict(engine="race", level="exploration", technique="Go race detector on free-running seeded client programs (the operation alphabets of the X specs' environment actions) with perturbing verifhook handlers; the TLA+ specs contribute the atomicity assumption being validated, not the verdict",
+             text="Dynamic exploration: 16 program families (one per concurrency-safe type named in the statement), each 3-4 goroutines issuing random documented API calls on a shared object under -race; a report counts iff one of its two access sites lies in a non-test library file. This is the modelling assumption (critical sections are atomic) of every X spec, validated on the real code; it is not decided by TLC.", ref="§3 C13",
+             note="Trusted: the Go race detector (go1.26.8 -race), which only reports races that occur in executed schedules; report classification by first frame outside GOROOT; harness callbacks keep their own state goroutine-local."),
 }
 NOT_YET = "not built yet in this session (work in progress; see DESIGN.md §6 build order)"
 
@@ -45,6 +48,7 @@ m = {
            "source_commits": hook_commits, "add_only": True},
  "engines": [
    {"name": "csync", "path": "tools/fam_csync.py", "serves_properties": ["C01", "C02"], "kind_free_text": "TLC model checking of specs/csync + controlled replay/trace validation (harness/drivers/csync.go)"},
+   {"name": "race", "path": "tools/fam_race.py", "serves_properties": ["C13"], "kind_free_text": "free-running client programs under the Go race detector (harness/race_test.go)"},
    {"name": "routine", "path": "tools/fam_routine.py", "serves_properties": ["C04", "C05", "C14"], "kind_free_text": "TLC model checking of specs/routine + controlled replay/trace validation (harness/drivers/routine.go)"},
  ],
  "checks": checks,
